@@ -28,10 +28,16 @@ type ProdPlan struct {
 	Script   []simrt.SinkFault `json:"script"`
 	UDPLoss  []int             `json:"udp_loss,omitempty"`
 	ChanCap  int               `json:"chan_cap"`
+	// SharedBuf: the messages are handed over as consecutive sub-slices of one
+	// buffer (their spare capacity runs into the messages behind them), the
+	// way a caller that batches its output would; the producer must neither
+	// write behind the end of a message nor change the buffer
+	SharedBuf bool `json:"shared_buf,omitempty"`
 }
 
 // ProdObs is what happened.
 type ProdObs struct {
+	BufChanged string // the producer wrote into the caller's buffer
 	HandedAt  []time.Duration
 	Conns     []*simrt.SinkConnRec
 	Dials     []simrt.DialRec
@@ -77,6 +83,20 @@ func runProd(p *ProdPlan, ch *simrt.Choices, trace bool) *ProdObs {
 		obs.Finished = true
 		done = true
 	})
+	var shared, sharedCopy []byte
+	var handed [][]byte
+	if p.SharedBuf {
+		for _, m := range p.Msgs {
+			shared = append(shared, m...)
+		}
+		shared = append(shared, "<guard>"...)
+		sharedCopy = append([]byte(nil), shared...)
+		off := 0
+		for _, m := range p.Msgs {
+			handed = append(handed, shared[off:off+len(m)]) // capacity up to the end of the buffer
+			off += len(m)
+		}
+	}
 	sim.GoNamed("feeder", true, func() {
 		for i, m := range p.Msgs {
 			g := 0
@@ -86,7 +106,11 @@ func runProd(p *ProdPlan, ch *simrt.Choices, trace bool) *ProdObs {
 			simrt.Sleep(time.Duration(g) * time.Microsecond)
 			obs.HandedAt = append(obs.HandedAt, sim.Now())
 			simrt.Yield(-80)
-			mq <- append([]byte(nil), m...)
+			if p.SharedBuf {
+				mq <- handed[i]
+			} else {
+				mq <- append([]byte(nil), m...)
+			}
 			simrt.Yield(-80)
 		}
 		// let everything drain, then stop the producer like Shutdown() does
@@ -102,6 +126,14 @@ func runProd(p *ProdPlan, ch *simrt.Choices, trace bool) *ProdObs {
 		obs.Stack = t.Stack
 	}
 	obs.Conns, obs.Dials, obs.Script = sim.Sink.Conns, sim.Sink.Dials, sim.Sink.Script
+	if p.SharedBuf && !bytes.Equal(shared, sharedCopy) {
+		for i := range shared {
+			if shared[i] != sharedCopy[i] {
+				obs.BufChanged = fmt.Sprintf("octet %d of the caller's buffer changed from %q to %q", i, sharedCopy[i], shared[i])
+				break
+			}
+		}
+	}
 	obs.ErrCount = errCount
 	obs.Steps, obs.Hash, obs.EndAt = sim.Seq, sim.TraceHash, sim.Now()
 	obs.Log = sim.Log.String()
@@ -125,6 +157,9 @@ func checkSinkStream(prop string, p *ProdPlan, obs *ProdObs, out *RunOut) {
 	if obs.RunErr != "" {
 		out.Inconclusive = "producer-setup-failed: " + obs.RunErr
 		return
+	}
+	if obs.BufChanged != "" {
+		add("caller-buffer-modified", p.Proto, "the producer wrote outside the messages it was handed: "+obs.BufChanged)
 	}
 	index := map[string]int{}
 	for i, m := range p.Msgs {
@@ -271,6 +306,7 @@ func genProdPlan(seed int64, tier string) *ProdPlan {
 	if r.Intn(4) == 0 {
 		p.Proto = "udp"
 	}
+	p.SharedBuf = r.Intn(4) == 0
 	n := 1 + r.Intn(60)
 	if r.Intn(5) == 0 {
 		n = 100 + r.Intn(400)
